@@ -1,8 +1,11 @@
 from __future__ import annotations
 
+import re
+
 import sympy
 from .. import templates
 from .python import PythonCodeGenerator, GotranPythonCodePrinter
+from ..exceptions import GotranxError
 
 
 class JaxPrinter(GotranPythonCodePrinter):
@@ -20,6 +23,14 @@ class JaxCodeGenerator(PythonCodeGenerator):
     def __init__(self, *args, **kwargs) -> None:
         super().__init__(*args, **kwargs)
 
+        # JaxPrinter writes the slots of the result to temporaries called _values_<index>
+        ode = self.ode
+        names = [x.name for x in (*ode.states, *ode.parameters, *ode.intermediates)]
+        if clash := sorted(name for name in names if re.fullmatch(r"_values_\d+", name)):
+            raise GotranxError(
+                f"Cannot generate code for {ode.name!r}: the names {clash} "
+                "are used by the generated code itself"
+            )
         self._printer = JaxPrinter()
 
     def imports(self) -> str:
